@@ -217,7 +217,7 @@ def run_irq_return(case):
 
 # =================================================================== psr_walk
 
-PSR_OPS = ['msr_reg', 'msr_reg', 'msr_reg', 'msr_imm', 'msr_spsr', 'cps', 'cps', 'setend', 'mrs', 'mrs_spsr', 'set_mode', 'set_ns', 'set_bits']
+PSR_OPS = ['msr_reg', 'msr_reg', 'msr_reg', 'msr_imm', 'msr_spsr', 'cps', 'cps', 'setend', 'mrs', 'mrs_spsr', 'set_mode', 'set_ns', 'set_bits', 'ret', 'ret']
 
 
 def gen_psr_walk(rng):
@@ -264,7 +264,7 @@ def run_psr_walk(case):
     SP = {0x11: 'fiq', 0x12: 'irq', 0x13: 'svc', 0x16: 'mon', 0x17: 'abt', 0x1a: 'hyp', 0x1b: 'und'}
 
     def execw(w):
-        if thumb and w <= 0xFFFF:
+        if ((r.cpsr.value >> 5) & 1) and w <= 0xFFFF:
             w = w << 16 | T.NOP
         words.append(w)
         n0 = len(mon.taken)
@@ -278,6 +278,7 @@ def run_psr_walk(case):
         if real_violations() or b.cores[0].dead:
             break
         cur = r.cpsr.value & 0x1F
+        thumb = (r.cpsr.value >> 5) & 1          # exception returns in the history may switch the instruction set
         scr = r.scr.value if sec else 0
         secure = (not sec) or not (scr & 1) or cur == 0x16
         nmfi = r.sctlr.nmfi
@@ -350,6 +351,28 @@ def run_psr_walk(case):
         elif k == 'setend':
             w = T.setend(op['e']) if thumb else A.setend(op['e'])
             expect_cpsr = (pre_cpsr & ~0x200) | op['e'] << 9
+        elif k == 'ret':
+            # exception return with an arbitrary saved PSR: CPSRWriteByInstr(SPSR, '1111', TRUE) then BranchWritePC(LR - imm)
+            if cur in (0x10, 0x1f, 0x1a):
+                continue
+            v = op['v'] & ~(1 << 24) & ~(1 << 9)               # J = 0 (no Jazelle/ThumbEE), E = 0 (fetch honours E in this code base)
+            if not (v >> 5) & 1:
+                v &= ~0x0600FC00                                 # IT must be zero when returning to ARM state
+            setattr(r, 'spsr_' + SP[cur], v)
+            pre_sp[SP[cur]] = v
+            expect_sp[SP[cur]] = v
+            lr = G.CODE + 0x100 + 4 * (op['imm12'] & 0x3F)
+            r.set(14, lr)
+            named.add(14)
+            pre_regs = M.regs_dict(arm)
+            imm = 4 if op['t1'] else 0
+            if thumb:
+                w = T.subs_pc_lr(imm)
+            else:
+                w = A.subs_pc_lr(imm) if (imm or op['e']) else A.movs_pc_lr()
+            expect_cpsr, unpred = CW.cpsr_write_by_instr(pre_cpsr, v, 0xF, True, sec, virt, scr, nmfi, rfr)
+            ret_target = (lr - imm) & 0xFFFFFFFF
+            label = 'ret|%s' % ('T' if (expect_cpsr >> 5) & 1 else 'A')
         elif k in ('mrs', 'mrs_spsr'):
             spsr = k == 'mrs_spsr'
             if spsr and cur in (0x10, 0x1f):
@@ -394,6 +417,12 @@ def run_psr_walk(case):
                 break
         if real_violations():
             break
+        if k == 'ret' and not unpred:
+            want_pc = ret_target & (~1 if (expect_cpsr >> 5) & 1 else ~3) & 0xFFFFFFFF
+            if r.pc_store_value() != want_pc:
+                b.violate('psr.model', site, 'return_address', 'exception return from mode %#x: PC %#x, expected %#x (LR %#x, restored CPSR %#010x)' % (
+                    cur, r.pc_store_value(), want_pc, lr, post_cpsr))
+                break
         # ---- MRS result and untouched registers
         if k in ('mrs', 'mrs_spsr'):
             got = r.get_rmode(op['rn'], post_cpsr & 0x1F)
@@ -424,9 +453,13 @@ def run_psr_walk(case):
         flds = ''.join(c for c, msk in (('M', 0x1F), ('I', 0x80), ('F', 0x40), ('A', 0x100), ('E', 0x200), ('f', 0xF8000000), ('g', 0xF0000)) if changed & msk)
         b.cover.add('psr|%s|%x|%d|%s|%s' % (label, cur, secure, flds, 'T' if thumb else 'A'))
         b.count('probe.op-' + k)
-        # keep the machine executable: data endianness back to little-endian
+        # keep the machine executable: data endianness back to little-endian, no IT state left over from a restored PSR
         if r.cpsr.e:
             r.cpsr.e = 0
+        if k == 'ret':
+            r.cpsr.it = 0
+            if r.cpsr.j:
+                r.cpsr.j = 0
     return b
 
 
